@@ -133,7 +133,8 @@ def parse_text(lang: str, text: str) -> dict:
 def text_shape(P) -> dict:
     return {"unpack": P["unpack"] if P["inputs"] else None, "inputs": P["inputs"], "extra": P["extra"],
             "assigns": [[k, sorted(cg.expr_names(e))] for k, e, _ in P["assigns"]],
-            "consts": [[k, rat_str(e[1])] for k, e, _ in P["assigns"] if e[0] == "num"],
+            "consts": [[k, rat_str(-e[1][1] if e[0] == "neg" else e[1])] for k, e, _ in P["assigns"]
+                       if e[0] == "num" or (e[0] == "neg" and e[1][0] == "num")],   # a literal, possibly negative
             "ret": P["ret"], "retUnit": P["retUnit"], "retBracket": P["retBracket"], "retLen": P["retLen"]}
 
 
@@ -383,6 +384,8 @@ def canon_M_gen(g):
     cls, payload = g["err"][0], (g["err"][1] if len(g["err"]) > 1 else None)
     if cls == "KeyError":
         return {"err": ["KeyError", payload]}
+    if cls == "Other":
+        return {"err": [payload]}
     return {"err": [cls]}
 
 
@@ -424,13 +427,13 @@ def gen_case(ctx, i):
     extra = {}
     vals = (0, 1, 2, 3, 5)
     if r < 0.34:      # inside the hypotheses of C07_equiv_partial
-        content = cg.gen_content(rng, all_vars_have_eq=True, p_ia_par=0.0, p_ia_var=0.15)
+        content = cg.gen_content(rng, all_vars_have_eq=True, p_ia_par=0.1, p_ia_var=0.15)
         stratum = "clean"
     elif r < 0.46:
         content = cg.gen_content(rng, all_vars_have_eq=False, p_ia_par=0.0, p_ia_var=0.15)
         stratum = "noeq"
     elif r < 0.58:
-        content = cg.gen_content(rng, all_vars_have_eq=rng.random() < 0.7, p_ia_par=0.12, p_ia_var=0.2)
+        content = cg.gen_content(rng, all_vars_have_eq=rng.random() < 0.7, p_ia_par=0.35, p_ia_var=0.2)
         stratum = "ia"
     elif r < 0.64:    # a function that cannot be translated
         content = cg.gen_content(rng, all_vars_have_eq=True, p_ia_par=0.0, p_ia_var=0.0)
@@ -531,6 +534,30 @@ def exhaustive_cases(thorough: bool):
                             ["r2", {"args": ["n1", "x"], "e": F2[1], "st": [["x", copy.deepcopy(k2)]]}]]}
         out.append({"content": content, "bad": [], "free": [], "langs": list(LANGS), "states": [["1", ["4"], []]],
                     "decl_seed": len(out), "stratum": "exhaustive-coefficients"})
+    # a parameter defined by an initial assignment: every definition from a small set (of a plain parameter, of a
+    # variable's initial value, of both, of a derived value that depends on the state) x who reads it (the rate, a derived
+    # parameter that the rate reads, the initial assignment of a second variable) x the plain parameter free or not
+    # (free: generation must be refused)
+    qdefs = [{"args": ["k"], "e": ["+", ["a", 0], ["a", 0]]}, {"args": ["x"], "e": F1[0]},
+             {"args": ["x", "k"], "e": F2[1]}, {"args": ["d1"], "e": F1[0]}, {"args": ["d1", "k"], "e": F2[0]}]
+    for qd, reader, free in itertools.product(qdefs, ("rate", "derived-parameter", "variable"), ([], ["k"])):
+        content = {"vars": [["x", {"v": "3"}]], "pars": [["k", {"v": "2"}], ["q", {"ia": copy.deepcopy(qd)}]],
+                   "derived": [["d1", {"args": ["x", "k"], "e": F2[0]}]], "rxns": []}
+        sto = [["x", {"c": "-1"}]]
+        if reader == "rate":
+            rate = {"args": ["x", "q"], "e": F2[1]}
+        elif reader == "derived-parameter":
+            content["derived"].insert(0, ["dq", {"args": ["q", "k"], "e": F2[0]}])
+            rate = {"args": ["x", "dq"], "e": F2[1]}
+        else:
+            content["vars"].append(["y", {"ia": {"args": ["q", "k"], "e": F2[1]}}])
+            rate = {"args": ["x", "y"], "e": F2[1]}
+            sto = sto + [["y", {"c": "2"}]]
+        content["rxns"] = [["r1", dict(rate, st=sto)]]
+        nvars = len(content["vars"])
+        out.append({"content": content, "bad": [], "free": list(free), "langs": list(LANGS),
+                    "states": [["1", ["5", "7"][:nvars], ["3"] * len(free)], ["0", ["2", "1"][:nvars], ["1"] * len(free)]],
+                    "decl_seed": len(out), "stratum": "exhaustive-ia-parameters"})
     # control-flow bodies on a grid of states (oracle only, Python text)
     for content in cg.cond_grid_contents():
         out.append({"content": content, "bad": [], "free": [], "langs": ["py"], "oracle_only": True,
@@ -579,12 +606,8 @@ def classify(case, lang, ent, feats):
     observed result to pick the class"""
     if lang == "jl" and len(case["content"]["vars"]) > 0:
         return "F-C07-4", True
-    if feats["ia_par_used"]:
-        return "F-C07-5", True
-    if lang == "rs" and ent.get("rs_mix"):
-        return "F-C07-8", False          # printer-level: outside the Lean model
-    if lang == "rs" and ent.get("rs_paren"):
-        return "F-C07-7", False
+    # F-C07-5 (parameters defined by an initial assignment), F-C07-7 / F-C07-8 (Rust printer) are repaired: such
+    # inputs are judged like any other
     if feats["var_without_eq"]:
         return "F-C07-3", True
     return None, True
@@ -599,7 +622,7 @@ def judge_case(ctx, case, R, M, extern=None):
         ctx.violation(case, R, "harness could not build the model")
         return
     if case.get("oracle_only"):
-        judge_oracle_only(ctx, case, R)
+        judge_oracle_only(ctx, case, R, extern)
         return
     if case.get("session") and "phase2" in R:
         M1 = None if M is None else M.get("phase1")
@@ -612,9 +635,10 @@ def judge_case(ctx, case, R, M, extern=None):
     judge_phase(ctx, case, R, M, extern)
 
 
-def judge_oracle_only(ctx, case, R):
+def judge_oracle_only(ctx, case, R, extern=None):
     """wider expression fragment: the Python text is executed and compared with the model (relative 1e-9); no Lean
-    model, no read-back of the text"""
+    model, no read-back of the text.  Thorough tier: the TypeScript text of the same model is run with node and compared
+    in the same way."""
     ctx.count({k: case[k] for k in ("content", "free", "states", "bad")}, f"{case.get('stratum', '?')}:{cg.shape_of(case['content'])}")
     ent = R["langs"]["py"]
     sc = sub_case(case, "py")
@@ -625,7 +649,7 @@ def judge_oracle_only(ctx, case, R):
         ctx.judge(sc, ent["gen"], {"ok": "text emitted"}, None, what="py: generation raised (oracle-only stratum)")
         return
     classes = cg.rich_classes(case["content"])
-    fid = "F-C07-10" if "recip-modulus" in classes else "F-C07-11" if "shared-modulus" in classes else None
+    fid = "F-C07-11" if "shared-modulus" in classes else None     # "recip-modulus" (former F-C07-10) is repaired
     for si, _ in enumerate(case["states"]):
         S, Re = R["spec"][si], ent["exec"][si]
         if "err" in S or not cg.finite_answer(S):
@@ -635,6 +659,21 @@ def judge_oracle_only(ctx, case, R):
             Re = S
         ctx.judge(sub_case(case, "py", si), Re, S, None, finding=fid,
                   what="py: generated code vs model (oracle-only stratum)")
+    ts = R["langs"].get("ts")
+    if ts is None or extern is None or extern.get("ts") is None:
+        return
+    if "gen" in ts:
+        ctx.judge(sub_case(case, "ts"), ts["gen"], {"ok": "text emitted"}, None, what="ts: generation raised (oracle-only stratum)")
+        return
+    for si, _ in enumerate(case["states"]):
+        S, Rx = R["spec"][si], extern["ts"][si]
+        if Rx is None or "err" in S or not cg.finite_answer(S):
+            continue
+        if cg.close(Rx, S):
+            Rx = S
+        ctx.hist["executed_ts_oracle_only"] = ctx.hist.get("executed_ts_oracle_only", 0) + 1
+        ctx.judge(sub_case(case, "ts", si), Rx, S, None, finding=fid,
+                  what="ts: generated code run by node vs model (oracle-only stratum)")
 
 
 def judge_phase(ctx, case, R, M, extern=None, tag=""):
@@ -645,7 +684,7 @@ def judge_phase(ctx, case, R, M, extern=None, tag=""):
     ctx.judge(sub_case(case, "py"), R["after"], R["before"], None, what="model parameter values after code generation" + tag)
     # the Lean hypothesis of C07_equiv_partial, restated on the wire form
     if M is not None:
-        in_scope = not (feats["ia_par"] or feats["dyn_coef"] or feats["var_without_eq"]) and len(case["content"]["vars"]) > 0
+        in_scope = not (feats["dyn_coef"] or feats["var_without_eq"]) and len(case["content"]["vars"]) > 0
         if M["okC"] != in_scope:
             ctx.add_drift(sub_case(case, "py"), {"in_scope": in_scope}, {"okC": M["okC"]}, "hypothesis okC of C07_equiv_partial")
         ctx.hist["okC_true" if M["okC"] else "okC_false"] = ctx.hist.get("okC_true" if M["okC"] else "okC_false", 0) + 1
@@ -662,6 +701,13 @@ def judge_phase(ctx, case, R, M, extern=None, tag=""):
                       None if skipped_stmt else (Mg if Mg is None or "err" in Mg else {"ok": "text emitted"}),
                       finding="F-C07-9" if skipped_stmt else None,
                       what=f"{lang}: generation must raise for an untranslatable function")
+            continue
+        if case["free"] and feats["ia_par"]:
+            # free parameters + a parameter defined by an initial assignment: refused (the constants written for such
+            # parameters are only valid for the model's own parameter values)
+            ctx.judge(sc, ent.get("gen", {"ok": "text emitted"}), {"err": ["NotImplementedError"]},
+                      Mg if Mg is None or "err" in Mg else {"ok": "text emitted"},
+                      what=f"{lang}: free parameters with an initial-assignment parameter must be refused{tag}")
             continue
         if "gen" in ent:
             ctx.judge(sc, ent["gen"], {"ok": "text emitted"}, Mg if Mg is None or "err" in Mg else {"ok": "text emitted"},
@@ -886,11 +932,23 @@ CORPUS = [
     {"content": {"vars": [["x", {"v": "1"}], ["z", {"v": "1"}]], "pars": [["k", {"v": "2"}]], "derived": [],
                  "rxns": [["r", {"args": ["x", "k"], "e": ["*", ["a", 0], ["a", 1]], "st": [["x", {"c": "-1"}]]}]]},
      "free": [], "states": [["0", ["3", "1"], []]], "stratum": "corpus"},
-    # parameter defined by an initial assignment (F-C07-5)
+    # parameter defined by an initial assignment (former F-C07-5, repaired: written as a constant)
     {"content": {"vars": [["x", {"v": "1"}], ["y", {"v": "1"}]], "pars": [["k", {"v": "2"}], ["q", {"ia": {"args": ["k"], "e": ["+", ["a", 0], ["c", "1"]]}}]],
                  "derived": [], "rxns": [["r", {"args": ["x", "q"], "e": ["*", ["a", 0], ["a", 1]], "st": [["x", {"c": "-1"}], ["y", {"c": "1"}]]}]]},
      "free": [], "states": [["0", ["3", "1"], []]], "stratum": "corpus"},
-    # Rust: float * symbol * (sum) loses its parentheses (F-C07-7); integer stoichiometry (F-C07-8)
+    # ... with a free parameter: refused (NotImplementedError)
+    {"content": {"vars": [["x", {"v": "1"}], ["y", {"v": "1"}]], "pars": [["k", {"v": "2"}], ["q", {"ia": {"args": ["k"], "e": ["+", ["a", 0], ["c", "1"]]}}]],
+                 "derived": [], "rxns": [["r", {"args": ["x", "q"], "e": ["*", ["a", 0], ["a", 1]], "st": [["x", {"c": "-1"}], ["y", {"c": "1"}]]}]]},
+     "free": ["k"], "states": [["0", ["3", "1"], ["5"]]], "stratum": "corpus"},
+    # ... reading a variable's initial value and a dynamic derived value; read by a derived parameter and by a variable's
+    # initial assignment
+    {"content": {"vars": [["x", {"v": "1"}], ["y", {"ia": {"args": ["q", "k"], "e": ["+", ["a", 0], ["a", 1]]}}]],
+                 "pars": [["k", {"v": "2"}], ["q", {"ia": {"args": ["x", "d2"], "e": ["*", ["a", 0], ["a", 1]]}}]],
+                 "derived": [["dq", {"args": ["q", "k"], "e": ["+", ["a", 0], ["a", 1]]}], ["d2", {"args": ["x", "k"], "e": ["*", ["a", 0], ["a", 1]]}]],
+                 "rxns": [["r", {"args": ["d2", "dq"], "e": ["*", ["a", 0], ["a", 1]], "st": [["x", {"c": "-1"}], ["y", {"c": "1"}]]}]]},
+     "free": [], "states": [["1", ["3", "5"], []]], "stratum": "corpus"},
+    # Rust: float * symbol * (sum) lost its parentheses (former F-C07-7); integer stoichiometry mixed i32 and f64 (former
+    # F-C07-8); both repaired
     {"content": {"vars": [["x", {"v": "1"}], ["y", {"v": "1"}]], "pars": [["k", {"v": "2"}]],
                  "derived": [["d", {"args": ["y", "k", "x"], "e": ["*", ["*", ["c", "2"], ["a", 0]], ["-", ["a", 1], ["a", 2]]]}]],
                  "rxns": [["r", {"args": ["d"], "e": ["a", 0], "st": [["x", {"c": "-1"}], ["y", {"c": "1"}]]}]]},
@@ -906,7 +964,7 @@ def _rich(args, e):
 
 
 CORPUS += [
-    # wider fragment, remainder with a reciprocal divisor: x % (1/p) is printed `(x % 1/p)` (F-C07-10)
+    # wider fragment, remainder with a reciprocal divisor: x % (1/p) was printed `(x % 1/p)` (former F-C07-10, repaired)
     {"content": {"vars": [["x", {"v": "4"}]], "pars": [["p", {"v": "4"}]], "derived": [],
                  "rxns": [["r", dict(_rich(["x", "p"], ["%", ["/", ["c", "125"], ["a", 0]], ["/", ["a", 1], ["*", ["a", 1], ["a", 1]]]]),
                                      st=[["x", {"c": "-1"}]])]]},
@@ -930,8 +988,8 @@ def setup(ctx):
     )
     ctx.assumptions += [
         "fn_to_sympy's translation of the generated straight-line + - * functions is taken as given (C06's subject)",
-        "sympy's code printers are trusted for py/ts/jl expression syntax and exercised by the expression parser; the Rust "
-        "printer's two defects found here are listed as findings F-C07-7/8",
+        "sympy's code printers (with the repository's subclass overrides for Mod, Rust sums inside products and Rust integer "
+        "literals) are trusted for py/ts/rs/jl expression syntax and exercised by the expression parser",
         "Julia text is only parsed and evaluated by the subset evaluator (no Julia in the image); TS/Rust texts are run with "
         "node/rustc in the thorough tier when present",
         "names of model components do not collide with generated names (d<x>dt, time, variables, model)",
@@ -943,6 +1001,9 @@ def setup(ctx):
 
 
 def run_batch(ctx, cases, thorough_tools=False):
+    if thorough_tools and find_node():
+        # wider-expression strata: also generate the TypeScript text, to be run with node
+        cases = [dict(c, langs=[*c["langs"], "ts"]) if c.get("oracle_only") and "ts" not in c["langs"] else c for c in cases]
     pairs = evaluate(cases, ctx.driver_ok)
     ext = extern_results(ctx, cases, [R for R, _ in pairs]) if thorough_tools else [None] * len(cases)
     for case, (R, M), e in zip(cases, pairs, ext):
